@@ -169,7 +169,7 @@ def h_plru(e, n):
     snapshot = [bool(b) for b in p.tree_array]
     p.access(ic)
     e.claim("idempotent", [bool(b) for b in p.tree_array] == snapshot)
-    e.claim("repr-is-tree", p.get_repr() is p.tree_array)
+    e.claim("repr-shows-tree-bits", [bool(b) for b in p.get_repr()] == [bool(b) for b in p.tree_array])
 
 
 HARNESSES = {"lru": h_lru, "lru_repr": h_lru_repr, "plru": h_plru}
